@@ -206,6 +206,17 @@ func (p *PeerScoreParams) validate() error {
 		}
 	}
 
+	// the application specific score is multiplied by the weight whatever the
+	// weight is: it has to be a number
+	if isInvalidNumber(p.AppSpecificWeight) {
+		return fmt.Errorf("invalid AppSpecificWeight; must be a valid number")
+	}
+
+	// the behaviour penalty counter is decayed even when its weight is 0
+	if invalidDisabledDecay(p.BehaviourPenaltyDecay) {
+		return fmt.Errorf("invalid BehaviourPenaltyDecay; must be between 0 and 1 (or 0 when the weight is 0)")
+	}
+
 	// check the behaviour penalty
 	if !p.SkipAtomicValidation || p.BehaviourPenaltyWeight != 0 || p.BehaviourPenaltyThreshold != 0 {
 		if p.BehaviourPenaltyWeight > 0 || isInvalidNumber(p.BehaviourPenaltyWeight) {
@@ -313,6 +324,15 @@ func (p *TopicScoreParams) validateMessageDeliveryParams() error {
 	if p.FirstMessageDeliveriesWeight != 0 && (p.FirstMessageDeliveriesCap <= 0 || isInvalidNumber(p.FirstMessageDeliveriesCap)) {
 		return fmt.Errorf("invalid FirstMessageDeliveriesCap; must be positive and a valid number")
 	}
+	// The counter is maintained (incremented up to the cap, decayed) even when
+	// the weight is 0: its parameters may be left unset then, but not be such
+	// that the counter grows without bound or turns negative.
+	if invalidDisabledDecay(p.FirstMessageDeliveriesDecay) {
+		return fmt.Errorf("invalid FirstMessageDeliveriesDecay; must be between 0 and 1 (or 0 when the weight is 0)")
+	}
+	if p.FirstMessageDeliveriesCap < 0 || isInvalidNumber(p.FirstMessageDeliveriesCap) {
+		return fmt.Errorf("invalid FirstMessageDeliveriesCap; must not be negative and a valid number")
+	}
 
 	return nil
 }
@@ -348,6 +368,16 @@ func (p *TopicScoreParams) validateMeshMessageDeliveryParams() error {
 	if p.MeshMessageDeliveriesWindow < 0 {
 		return fmt.Errorf("invalid MeshMessageDeliveriesWindow; must be non-negative")
 	}
+	// see validateMessageDeliveryParams: also with weight 0 the counter must stay bounded
+	if invalidDisabledDecay(p.MeshMessageDeliveriesDecay) {
+		return fmt.Errorf("invalid MeshMessageDeliveriesDecay; must be between 0 and 1 (or 0 when the weight is 0)")
+	}
+	if p.MeshMessageDeliveriesCap < 0 || isInvalidNumber(p.MeshMessageDeliveriesCap) {
+		return fmt.Errorf("invalid MeshMessageDeliveriesCap; must not be negative and a valid number")
+	}
+	if p.MeshMessageDeliveriesThreshold < 0 || isInvalidNumber(p.MeshMessageDeliveriesThreshold) {
+		return fmt.Errorf("invalid MeshMessageDeliveriesThreshold; must not be negative and a valid number")
+	}
 	if p.MeshMessageDeliveriesWeight != 0 && p.MeshMessageDeliveriesActivation < time.Second {
 		return fmt.Errorf("invalid MeshMessageDeliveriesActivation; must be at least 1s")
 	}
@@ -371,6 +401,10 @@ func (p *TopicScoreParams) validateMessageFailurePenaltyParams() error {
 	}
 	if p.MeshFailurePenaltyWeight != 0 && (isInvalidNumber(p.MeshFailurePenaltyDecay) || p.MeshFailurePenaltyDecay <= 0 || p.MeshFailurePenaltyDecay >= 1) {
 		return fmt.Errorf("invalid MeshFailurePenaltyDecay; must be between 0 and 1")
+	}
+	// see validateMessageDeliveryParams: also with weight 0 the counter must stay bounded
+	if invalidDisabledDecay(p.MeshFailurePenaltyDecay) {
+		return fmt.Errorf("invalid MeshFailurePenaltyDecay; must be between 0 and 1 (or 0 when the weight is 0)")
 	}
 
 	return nil
@@ -420,4 +454,11 @@ func ScoreParameterDecayWithBase(decay time.Duration, base time.Duration, decayT
 // or an infinite number.
 func isInvalidNumber(num float64) bool {
 	return math.IsNaN(num) || math.IsInf(num, 0)
+}
+
+// invalidDisabledDecay tells whether decay would make a counter grow or change
+// sign when it is applied although the counter's weight is 0 (an unset decay,
+// 0, is fine for a disabled counter: it just resets it at every tick).
+func invalidDisabledDecay(decay float64) bool {
+	return isInvalidNumber(decay) || decay < 0 || decay >= 1
 }
